@@ -6,7 +6,7 @@ From RV.Model Require Import Base Word Limbs Bytes DivRecip DivSmall Redc.
 From RV.Model Require DivRef DivKnuth Shift.
 From RV.Gen Require Import Prim Scalar.
 From RV.Model Require Add Mul UDiv Conv Bits Pow Modular GcdMatrix Gcd Log.
-From RV.Proofs Require Import BaseFacts PfGenScalar PfGenAdd PfGenMul PfGenDiv PfGenSpecial PfGenCtor PfGenBits PfGenDivRef PfGenLimbs PfGenRedc PfGenKnuth PfGenShift PfGenPow PfGenModular PfGenMatrix PfGenGcd PfGenInvRing PfGenDivTop.
+From RV.Proofs Require Import BaseFacts PfGenScalar PfGenAdd PfGenMul PfGenDiv PfGenSpecial PfGenCtor PfGenBits PfGenDivRef PfGenLimbs PfGenRedc PfGenKnuth PfGenShift PfGenPow PfGenModular PfGenMatrix PfGenGcd PfGenInvRing PfGenDivTop PfGenFold.
 
 Theorem GenTie_source_equals_model :
   (forall bits, 0 <= bits -> bits + 63 < B -> g_nlimbs bits = Val (nlimbs bits)) /\
@@ -551,6 +551,19 @@ Theorem GenTie_log2 : forall bits a,
 Proof. exact g_log2_eq. Qed.
 Print Assumptions GenTie_log2.
 
+(* trait glue of src/add.rs and src/mul.rs: Sum / Product for iterators of Self and of &Self
+   (`iter.fold(init, Self::g)`; the iterator is a list of Uint values) and Neg for Uint and &Uint *)
+Theorem GenTie_fold_glue : forall bits xs a,
+  0 <= bits -> nlimbs bits <= B -> Forall (canon bits) xs -> length a = nlimbsN bits ->
+  g_sum bits (nlimbs bits) xs = Val (Add.usum bits xs) /\
+  g_sum_ref bits (nlimbs bits) xs = Val (Add.usum bits xs) /\
+  g_product bits (nlimbs bits) xs = Mul.product bits xs /\
+  g_product_ref bits (nlimbs bits) xs = Mul.product bits xs /\
+  g_neg bits (nlimbs bits) a = Val (Add.wrapping_neg bits a) /\
+  g_neg_ref bits (nlimbs bits) a = Val (Add.wrapping_neg bits a).
+Proof. intros bits xs a H0 HB Hx La. exact (g_fold_glue_eq bits H0 HB xs a Hx La). Qed.
+Print Assumptions GenTie_fold_glue.
+
 (* the premises are satisfiable and the generated code computes: reciprocal(2^63) = 2^64 - 1 *)
 Example GenTie_nonvacuous :
   g_reciprocal_mg10 (2 ^ 63) = Val (2 ^ 64 - 1) /\ g_mask 65 = Val 1 /\ g_nlimbs 65 = Val 2 /\
@@ -575,6 +588,8 @@ Example GenTie_nonvacuous :
   g_bitxor 65 2 [5; 1] [3; 1] = Val [6; 0] /\
   g_leading_zeros 65 2 [5; 0] = Val 62 /\
   g_reverse_bits 65 2 [1; 0] = Val [0; 1] /\
+  g_product 65 2 [[3; 0]; [5; 0]; [2 ^ 63; 0]] = Val [2 ^ 63; 1] /\
+  g_sum 65 2 [[2 ^ 64 - 1; 1]; [1; 0]] = Val [0; 0] /\
   g_log2 65 2 [0; 1] = Val 64 /\
   g_checked_log2 65 2 [0; 0] = Val None /\
   g_overflowing_from_limbs_slice 65 2 [7; 3; 0; 9] = Val ([7; 1], true) /\
